@@ -49,10 +49,18 @@ def stage_b_hist(ctx, res, stats, cases, batch=None):
     else:
         yield
     for (idf, idq), c in zip(ids, cases):
-        h = dc.make_history(c["ps"], c["tb"])
         ts, cs = np.array(c["ts"]), np.array(c["cs"])
-        tc, tn = h.to_coalescent_timescale(ts), h.to_natural_timescale(cs)
-        d = h.as_dict()
+        try:
+            h = dc.make_history(c["ps"], c["tb"])
+            tc, tn = h.to_coalescent_timescale(ts), h.to_natural_timescale(cs)
+            d = h.as_dict()
+        except Exception as e:  # noqa: BLE001  exceptions of the real code are data
+            res.evaluations += 1
+            res.violations.append(Violation(
+                "transform-raises", f"PopulationSizeHistory raised {type(e).__name__} on a valid history / non-negative times: {str(e)[:100]}",
+                dict(kind="hist", ps=[f2h(x) for x in c["ps"]], tb=[f2h(x) for x in c["tb"]],
+                     ts=[f2h(x) for x in c["ts"]], cs=[f2h(x) for x in c["cs"]])))
+            continue
         impl = dict(tc=list(tc), tn=list(tn), cb=list(h.coalescent_breaks), cr=list(h.coalescent_rate),
                     d1=[float(x) for x in d["population_size"]], d2=[float(x) for x in d.get("time_breaks", [])])
         res.evaluations += 1
@@ -283,7 +291,17 @@ def stage_gamma(ctx, res, stats, n_cases, batch):
 # ----------------------------------------------------------------------------- C
 
 def oracle_history(res, stats, c):
-    """the statement of C17 on the real class (independent of the Lean model)"""
+    """the statement of C17 on the real class (independent of the Lean model); exceptions are data"""
+    try:
+        _oracle_history(res, stats, c)
+    except Exception as e:  # noqa: BLE001
+        res.violations.append(Violation(
+            "transform-raises", f"PopulationSizeHistory raised {type(e).__name__} on a valid history / non-negative times: {str(e)[:100]}",
+            dict(kind="hist", ps=[f2h(x) for x in c["ps"]], tb=[f2h(x) for x in c["tb"]],
+                 ts=[f2h(x) for x in c["ts"]], cs=[f2h(x) for x in c["cs"]])))
+
+
+def _oracle_history(res, stats, c):
     h = dc.make_history(c["ps"], c["tb"])
     ts, cs = np.array(c["ts"]), np.array(c["cs"])
     replay = dict(kind="hist", ps=[f2h(x) for x in c["ps"]], tb=[f2h(x) for x in c["tb"]],
@@ -303,6 +321,9 @@ def oracle_history(res, stats, c):
               f"to_coalescent_timescale({t!r}) = {float(y)!r}, integral of 1/(2N) = {float(ex)!r}")
             break
     # round trips
+    if np.any(tc < 0) or np.any(tn < 0):
+        V("negative-image", "a time transform maps a non-negative time to a negative one")
+        return
     back = h.to_natural_timescale(tc)
     for t, y, z in zip(ts, tc, back):
         tol = TOL_FACTOR * dc.tol_roundtrip_nat(h, t, y)
